@@ -24,6 +24,7 @@ from __future__ import annotations
 
 import contextlib
 import io
+import math
 import random
 import re
 
@@ -159,6 +160,10 @@ def generate(scenario, seed):
         scene, _ = scenario.generate(maxIterations=60)
     except RejectionException:
         return None
+    except (OverflowError, ZeroDivisionError) as e:
+        # plain Python arithmetic of the program failed on this sample (e.g. a 300-digit
+        # integer times a float): the case is outside the domain of this property
+        return type(e).__name__
     return scene
 
 
@@ -347,7 +352,7 @@ def check_cross(out, prog, kind, base, scene, data, seed, src):
     elif k == "other":
         out.fail(f"cross:{kind}|{core.exc_signature(val)}", source=src, error=repr(val)[:300])
     s2 = generate(other, seed)
-    if s2 is None:
+    if s2 is None or isinstance(s2, str):
         return
     try:
         d2 = other.sceneToBytes(s2)
@@ -378,14 +383,16 @@ def canon_sim(sim):
     return c
 
 
-def replay_outcome(scenario, blob, dyn, **kw):
+def replay_outcome(scenario, blob, dyn, simulator=None, **kw):
     """'ok' | 'none' | 'ser' | 'div' | ('other', exc)"""
     from scenic.core.serialization import SerializationError
     from scenic.core.simulators import DivergenceError
     from vf.c18_sim import HSimulator
 
+    if simulator is None:
+        simulator = HSimulator(perturb=kw.pop("perturb", None))
     try:
-        sim = scenario.simulationFromBytes(blob, HSimulator(perturb=kw.pop("perturb", None)),
+        sim = scenario.simulationFromBytes(blob, simulator,
                                            maxSteps=dyn["maxSteps"], timestep=dyn["timestep"],
                                            **kw)
         return ("ok", sim) if sim is not None else ("none", None)
@@ -500,8 +507,10 @@ TOLS = [0, 0, 0.25, 1.0, 2.5]
 
 def check_divergence(out, scenario, scene, sim, blob, dyn, case, src):
     """(vi) one replay per (value type x sign x within/beyond) with exactly one reported value
-    shifted.  Magnitudes stay a factor 2 away from the tolerance (or are 2^-20 / 0 when the
-    tolerance is 0), so rounding in `actual - expected` cannot change the expected verdict."""
+    shifted.  Magnitudes are chosen a factor 2 away from the tolerance (or 2^-20 / 0 when the
+    tolerance is 0); the expected verdict is then computed from the value the simulator really
+    reported (|reported - true| > tolerance), and not judged within 1e-9 relative of the
+    tolerance, so rounding of the shift against a huge true value cannot cause a false alarm."""
     pl = case["perturb"]
     nobj = len(sim.objects)
     tol = TOLS[pl["tol"] % len(TOLS)]
@@ -552,10 +561,41 @@ def check_divergence(out, scenario, scene, sim, blob, dyn, case, src):
                 delta = int(sm)
             plan = {"update": u, "obj": i, "prop": prop, "delta": delta}
             seed_all(case["seed"] + 11)
-            k, val = replay_outcome(scenario, blob, dyn, perturb=plan, divergenceTolerance=tol)
+            from vf.c18_sim import HSimulator
+
+            simulator = HSimulator(perturb=plan)
+            k, val = replay_outcome(scenario, blob, dyn, simulator=simulator,
+                                    divergenceTolerance=tol)
+            if len(simulator.effects) != 1:
+                if k in ("ser", "other"):
+                    out.fail(f"diverge:{want}:{direction}|replay-failed-before-perturbation",
+                             source=src, plan=plan, outcome=k, error=repr(val)[:300])
+                else:
+                    raise core.HarnessError(f"perturbation plan {plan} was not applied once")
+                continue
+            # the verdict is derived from what the simulator really reported: the shift may
+            # be rounded (or absorbed completely) when the true value is huge
+            orig, new = simulator.effects[0]
+            if want == "str":
+                eff, expect, band = None, new != orig, False
+            else:
+                if want == "Vector":
+                    eff = math.hypot(*[float(a) - float(b) for a, b in zip(new, orig)])
+                    scale = max(1.0, tol, *[abs(float(c)) for c in orig])
+                else:
+                    eff = abs(new - orig)
+                    scale = max(1.0, tol, abs(float(orig)))
+                expect = eff > tol
+                band = abs(eff - tol) <= 1e-9 * scale and not (eff == 0 and tol == 0)
+            if band:
+                out.cls("near-boundary:perturbation")
+                continue
+            if want != "str" and sm and eff == 0:
+                out.cls("perturbation-absorbed-by-rounding")
             out.cls(f"perturb:{want}:{direction}:" + ("beyond" if expect else "within"))
             cell = f"diverge:{want}:{direction}"
-            detail = dict(source=src, plan=plan, tolerance=tol, seed=case["seed"])
+            detail = dict(source=src, plan=plan, tolerance=tol, seed=case["seed"],
+                          reported=[repr(orig)[:60], repr(new)[:60]])
             if k == "other":
                 out.fail(f"{cell}|{core.exc_signature(val)}", error=repr(val)[:300], **detail)
             elif expect and k != "div":
@@ -693,8 +733,8 @@ def judge(case, tier="quick"):
         out.note = repr(e)[:200]
         return out
     scene = generate(scenario, case["seed"])
-    if scene is None:
-        out.cls("discard:rejected")
+    if scene is None or isinstance(scene, str):
+        out.cls("discard:rejected" if scene is None else "discard:generate:" + scene)
         return out
     with trace_writes() as log:
         try:
@@ -822,7 +862,7 @@ def run_shard(shard, tier):
             col.add(c, judge_codec(c))
     import os
 
-    shrink_s = float(os.environ.get("VERIF_SHRINK_S", 8 if tier == "quick" else 60))
+    shrink_s = float(os.environ.get("VERIF_SHRINK_S", 8 if tier == "quick" else 30))
     core.hyp_search(cases(), lambda c: judge(c, tier), shard["n"], shard["seed"], col,
                     known_sigs=shard.get("known_sigs", ()), case_timeout=120,
                     shrink_s=shrink_s, shrink=shrink_s > 0)
